@@ -1,0 +1,28 @@
+package ugo
+
+// Named synchronisation points for deterministic simulation (see verif_on.go).
+// Without the `verif` build tag every verifPoint call is an empty inlined
+// function and these constants are unused at run time.
+const (
+	vpLoop = iota + 1
+	vpRunEnter
+	vpRunLocked
+	vpRunReset
+	vpRunExit
+	vpAbortEnter
+	vpAbortMid
+	vpAbortExit
+	vpInvokeChecked
+	vpPoolLock
+	vpPoolLocked
+	vpPoolUnlocked
+	vpEvalSelect1
+	vpEvalBeforeGo
+	vpEvalGoStart
+	vpEvalGoClosing
+	vpEvalGoEnd
+	vpEvalSelect2
+	vpEvalCancelSeen
+	vpEvalWaitDone
+	vpEvalReturn
+)
